@@ -33,7 +33,10 @@ CLAIMS = {
          "every registry reachable by well-formed declarations; reduction preserves the rational "
          "factor and every exponent (free-abelian-group semantics); two terms are equal EXACTLY "
          "when they denote the same factor and the same exponent for every base element, provided "
-         "no two distinct base elements occurring in them share a sort key. The hand-written model "
+         "no two distinct base elements occurring in them share a sort key; in every registry REACHABLE by well-formed declarations "
+         "this needs no hypothesis on the registry for terms over units that have a scale (Proofs/RefUnique.lean: a base unit with a "
+         "scale is its type's reference unit — an invariant of every declaration, valid or rejected — so distinct base units are never "
+         "convertible and scaled base units never share a sort key). The hand-written model "
          "is tied to term.py by running ~1.7k operations per run on random element environments "
          "against the real Term class, each operation also with operands whose cached normal form / "
          "hash were warmed before. Partial: that proviso fails for units of a type without "
@@ -60,7 +63,9 @@ CLAIMS = {
          "Theorems (Props/C03.lean): different types => +,- and the four order comparisons raise IncompatibleUnitsError and == is False, for all "
          "amounts and units; same type => result in the left operand's unit with exactly the sum/difference (reference value = sum of "
          "reference values, hence commutative/associative/inverse/distributive by value). Quantity vs plain object (10 kinds, both orders): "
-         "TypeError / == False — tied by correspondence. sum() without start value = fold of +.",
+         "TypeError / == False — tied by correspondence. sum() without start value = fold of +. Correspondence also: a type without "
+         "reference unit and a type declared as a SUBCLASS of another against other types with every operator in both orders; augmented "
+         "assignment (s = a; s += b) gives the sum and leaves a's value to later sums.",
          "6 C03", NOTE),
  "C04": ("Lean 4 proof (comparison = comparison of exact reference values, positive scales) + differential correspondence",
          "Theorems (Props/C04.lean): for all amounts and any two units of one type: == is equality of reference values (non-zero scales); "
@@ -77,7 +82,8 @@ CLAIMS = {
          "operands scale the amount and keep unit/type; same-type division is the plain ratio; the resolution of a unit term is a "
          "function of what the term denotes (same rational factor and base exponents => same unit and factor, or both undefined); "
          "COMPLETENESS: whenever the directory holds a unit whose normalised definition has factor 1 and the exponents the term denotes "
-         "(the reference unit of a declared type of that dimension), the operation is defined (non-vacuity: km/min in the catalogue). "
+         "(the reference unit of a declared type of that dimension), the operation is defined (non-vacuity: km/min in the catalogue), "
+         "without any hypothesis on the registry for terms over scaled units in every reachable registry (resolution_complete_reachable). "
          "Correspondence: predefined catalogue "
          "(thorough: all 113x113 ordered pairs x {*,/}) and user histories, all operand kinds. Partial: completeness for reference-less "
          "types whose declared unit carries a numeric factor (known finding D2) is not claimed.",
@@ -110,7 +116,9 @@ CLAIMS = {
          "Theorems (Props/C09.lean): every accepted rate stores a power-of-ten multiple >= 1 and a term amount with <= 6 fractional digits that "
          "differs from true rate x multiple by < 1e-6 (<= 0.5e-6 under half modes), for ALL inputs and all 8 modes; the rejection table; rate x "
          "inverse = 1; inversion swaps currencies and is the constructor applied to the exact reciprocal; the four triangulation patterns give "
-         "the documented direction, no shared currency is rejected. Partial: 'magnitude >= -1' is false for non-power-of-ten multiples (known "
+         "the documented direction, no shared currency is rejected; the model's magnitude is floor(log10 x) (10^m <= x < 10^(m+1), within the "
+         "fuel 10^-4000 <= x < 10^4000), hence the stored term amount is POSITIVE for every accepted rate and mode and at least 0.1 "
+         "(magnitude >= -1) whenever the given unit multiple is a power of ten. Partial: 'magnitude >= -1' is false for other multiples (known "
          "finding D7, negation proved); float log10 near powers of ten is runtime behaviour outside the model.",
          "6 C09", NOTE),
  "C10": ("Lean 4 proof (money x rate = exact product rounded once; price units: resolved unit worth exactly unit x term/unit currency under every admissible valuation) + differential correspondence with a value-based oracle",
@@ -142,7 +150,8 @@ CLAIMS = {
          "Theorems (Props/C19.lean): for quantities of a type with reference unit, a == b implies equal hash keys whatever the units and "
          "representations (after the fix: commit); equal terms have equal hash keys; exchange rates hash what they compare. Partial (known "
          "findings, negations proved): same-scale units hash by symbol (D13u); converter-based equality of reference-less types cannot be "
-         "hash-consistent (D13c). Python's hash of equal numbers/tuples is trusted.",
+         "hash-consistent (D13c). Correspondence also over derived types on reference-less bases (money per mass, temperature per duration): "
+         "units of such a type equal themselves only (after the fix: commit for D22). Python's hash of equal numbers/tuples is trusted.",
          "6 C19", NOTE),
  "C15": ("Lean 4 proof (registry model: effect of unit creation; reachable-state invariants for every declaration history: directory coherence and stored scale = value of the definition; rejection table) + differential correspondence on declaration histories",
          "Theorems (Props/C15.lean) over the registry model: what a successful unit creation does to each directory (next id, found under its "
@@ -163,7 +172,9 @@ CLAIMS = {
          "and failing unit arithmetic (operation cache), a rejected attempt returns exactly the state it started from, for ALL states and "
          "arguments; hence all later queries answer as if the attempt had never been made. The model mirrors the code's order of validation and "
          "registration (after the fix: commits for duplicate-dimension classes and for MoneyConverter.update); the mirror is validated by comparing "
-         "the full directory dump / converter table of the real objects before and after every rejected step of random histories.",
+         "the full directory dump / converter table of the real objects before and after every rejected step of random histories (16 kinds "
+         "of invalid steps, among them class definitions with a numeric factor; units without definition in types WITH reference unit and "
+         "units defined over them: after the fix: commit for D21 these declarations are accepted and leave coherent directories).",
          "6 C16", NOTE),
  "C06": ("Lean 4 proof (conservation; exact shares without quantum; dispersal lemma: zero remainder and < 1 quantum deviation for every input and mode) + differential correspondence",
          "Theorems (Props/C06.lean, Proofs/Allocate.lean): without a quantum every portion is exactly its share and the remainder is zero; "
